@@ -31,16 +31,22 @@ pub fn draw_shape(rng: &mut Rng, quick: bool, stats: &mut crate::common::Stats) 
             _ => rng.range(0, if quick { 5 } else { 8 }),
         } as u32;
         let blow = rng.range(1, 4) as u32;
+        let (steps, log_last, blow) = if n_inner >= 10 {
+            // many layers: all steps 1, constant last layer, masked hashing (cheap up to 2^15)
+            (std::iter::once(0).chain(std::iter::repeat(1).take(n_inner)).collect::<Vec<u32>>(), 0u32, 1u32)
+        } else {
+            (steps, log_last, blow)
+        };
         let sum: u32 = steps.iter().sum();
         let log_input = sum + log_last + blow;
-        if log_input > max_input {
+        if log_input > max_input && n_inner < 10 {
             continue;
         }
-        let nf = match rng.below(4) {
+        let nf = if n_inner >= 10 { 0 } else { match rng.below(4) {
             0 => 0, // everything masked: cheap, allows the biggest domains
             1 => 1000,
             _ => rng.range(0, log_input as u64 + 2),
-        };
+        } };
         // Poseidon-heavy big instances are expensive; keep them rarer
         if nf > 4 && log_input > 9 && !rng.chance(1, 4) {
             continue;
@@ -282,6 +288,9 @@ fn shape_class(s: &FriShape, nq: usize) -> String {
 
 pub fn c06(ctx: &mut Ctx) {
     let scenario = "core.c06";
+    for p in ["fri.step1", "fri.step2", "fri.step3", "fri.step4", "fri.last-layer-constant", "fri.many-layers", "fri.single-query", "fri.two-queries-one-coset", "fri.whole-coset-queried", "fri.all-points-queried", "fri.sparse-polynomial", "fold-identity-cosets-checked"] {
+        ctx.stats.declare_probe(p);
+    }
     let n_inst: u64 = if ctx.is_quick() { 4_000 } else { 40_000 };
     for k in 0..n_inst {
         if !ctx.mine(k) {
@@ -494,6 +503,9 @@ fn kind_of(name: &str) -> String {
 
 pub fn c07(ctx: &mut Ctx) {
     let scenario = "core.c07";
+    for p in ["fri.step1", "fri.step2", "fri.step3", "fri.step4", "fri.last-layer-constant", "fri.single-query", "fri.two-queries-one-coset", "fri.whole-coset-queried", "high-degree-undetectable-at-queried-points", "high-degree-fitted-but-detectable", "high-degree-fitted-but-last-but-detectable", "high-degree-fitted-but-first-but-detectable"] {
+        ctx.stats.declare_probe(p);
+    }
     let n_inst: u64 = if ctx.is_quick() { 2_500 } else { 30_000 };
     let per_kind = if ctx.is_quick() { 4 } else { 12 };
     for k in 0..n_inst {
